@@ -157,6 +157,110 @@ def task_couples(n):
     out.sample({"couples_n": n, "orders": len(perms)}, limit=1)
     return out.dump()
 
+def _blocks(max_n):
+    """Every valid labelled structure with up to `max_n` persons, each with all / none of its fg-children covering their own needs."""
+    out = []
+    for n in range(1, max_n + 1):
+        for rs in itertools.product("KYZAR" if n < 3 else "KYA", repeat=n):
+            for _rs, ages, hh, partner, par in popgen.structures_for_roles(rs):
+                if not popgen.structure_valid(ages, hh, partner, par, n):
+                    continue
+                kids = sorted({c for c, _ in ref.fg_children(ages, hh, par)})
+                for own in ((), tuple(kids)) if kids else ((),):
+                    out.append((ages, hh, partner, par, [i in own for i in range(n)]))
+    return out
+
+
+def task_many_units(arg):
+    """Hundreds of small structures side by side in ONE table: the units of the table are the disjoint union of the units of the blocks.
+    Reaches what no single household can: more than 99 units, more than 99 self-sufficient children, ids of neighbouring households."""
+    max_n, order, hh_scheme = arg
+    out = Partial()
+    blocks = _blocks(max_n)
+    rows = []  # (block, local index)
+    for b, (ages, _hh, _pt, _par, _eig) in enumerate(blocks):
+        rows += [(b, i) for i in range(len(ages))]
+    n = len(rows)
+    if order == "reversed":
+        rows = rows[::-1]
+    elif order == "stride":  # households are not contiguous
+        step = 389  # prime, does not divide any table length used here
+        assert n % step != 0
+        rows = [rows[(k * step) % n] for k in range(n)]
+    elif order == "children-first":
+        rows = sorted(rows, key=lambda r: blocks[r[0]][0][r[1]])
+    pid = lambda b, i: b * 10 + [7, 0, 4][i]  # noqa: E731
+    hhid = {"consecutive": lambda b, h: 2 * b + h, "sparse": lambda b, h: 7 * b + 3 * h + 1, "hundreds": lambda b, h: 100 * b + h}[hh_scheme]
+    mp = lambda b, x: -1 if x < 0 else pid(b, x)  # noqa: E731
+    p_id = np.array([pid(b, i) for b, i in rows])
+    hh_id = np.array([hhid(b, blocks[b][1][i]) for b, i in rows])
+    alter = np.array([blocks[b][0][i] for b, i in rows])
+    part = np.array([mp(b, blocks[b][2][i]) for b, i in rows])
+    e1 = np.array([mp(b, blocks[b][3][i][0]) for b, i in rows])
+    e2 = np.array([mp(b, blocks[b][3][i][1]) for b, i in rows])
+    eig = np.array([blocks[b][4][i] for b, i in rows])
+    case = {"blocks": len(blocks), "rows": n, "max_persons_per_block": max_n, "row_order": order, "hh_ids": hh_scheme,
+            "self_sufficient_children": int(eig.sum())}
+    out.state((max_n, order, hh_scheme))
+    out.add_states(len(blocks))
+
+    def union(fn):
+        w = set()
+        for b, blk in enumerate(blocks):
+            for unit in fn(*blk):
+                w.add(frozenset((b, i) for i in unit))
+        return frozenset(w)
+
+    def got_part(ids):
+        d = {}
+        for (b, i), g in zip(rows, ids):
+            d.setdefault(int(g), set()).add((b, i))
+        return frozenset(frozenset(v) for v in d.values())
+
+    def report(name, got, want):
+        if got == want:
+            return True
+        merged = [sorted(u) for u in got if len({b for b, _ in u}) > 1][:3]
+        bad = sorted(sorted(u) for u in (got ^ want))[:4]
+        out.violation(f"{name}:many-units:partition-differs-from-definition", case,
+                      f"{name} in a table of {len(blocks)} structures / {n} rows ({order}, {hh_scheme} hh ids): units spanning several structures {merged}; differing units (block, person) {bad}")
+        return False
+
+    try:
+        fg = G.fg_id_numpy(p_id, hh_id, alter, part, e1, e2)
+        out.step()
+        ok = report("fg_id", got_part(fg), union(lambda a, h, pt, pr, e: ref.family_units(a, h, pt, pr)))
+        bg = G.bg_id_numpy(np.asarray(fg), alter, eig)
+        out.step()
+        gb = got_part(bg)
+        ok = report("bg_id", gb, union(lambda a, h, pt, pr, e: ref.needs_units(a, h, pt, pr, e))) and ok
+        if ok and not ref.refines(gb, got_part(fg)):
+            out.violation("bg_id:many-units:not-within-fg", case, "")
+        wc = union(lambda a, h, pt, pr, e: ref.couples(list(pt)))
+        for name, fn in (("eg_id", G.eg_id_numpy), ("ehe_id", G.ehe_id_numpy)):
+            ids = fn(p_id, part)
+            out.step()
+            report(name, got_part(ids), wc)
+        for gv_all in (False, True):
+            gv = np.array([gv_all and x >= 0 for x in part])
+            ids = G.sn_id_numpy(p_id, part, gv)
+            out.step()
+            report("sn_id", got_part(ids), union(lambda a, h, pt, pr, e: ref.tax_units(list(pt), [gv_all and x >= 0 for x in pt])))
+        # housing units: a needs unit with priority for housing benefit splits off its household's other needs units
+        for pattern in ("none", "own-bg-only", "all"):
+            flag = {"none": np.zeros(n, dtype=bool), "all": np.ones(n, dtype=bool), "own-bg-only": eig.copy()}[pattern]
+            ids = G.wthh_id_numpy(hh_id, flag, np.zeros(n, dtype=bool))
+            out.step()
+            want = ref.housing_units([int(x) for x in hh_id], [bool(x) for x in flag])
+            got = ref.by_key([int(x) for x in ids])
+            if got != want:
+                out.violation("wthh_id:many-units:partition-differs-from-definition", {**case, "flags": pattern}, f"{len(got)} units, definition {len(want)}")
+    except Exception as e:  # noqa: BLE001
+        out.violation("many-units:exception:" + type(e).__name__, case, repr(e)[:300])
+    out.outcome(("many-units", n, int(eig.sum())))
+    out.sample(case, limit=1)
+    return out.dump()
+
 
 def task_wthh(n):
     out = Partial()
@@ -242,6 +346,9 @@ def task_api(arg):
 
 
 def replay(case):
+    if "blocks" in case:
+        part = task_many_units((case["max_persons_per_block"], case["row_order"], case["hh_ids"]))
+        return not part["violations"], "; ".join(v[2] for v in part["violations"][:2])
     n = len(case["ages"])
     perm = tuple(case["row_order"])
     if "ages" in case and not case.get("api"):
@@ -281,6 +388,10 @@ def run(tier):
         rep.merge(part)
     for part in harness.pmap(task_wthh, [1, 2, 3] + ([4] if thorough else [])):
         rep.merge(part)
+    mu = [(m, o, h) for m in (2, 3) for o in ("identity", "reversed", "stride", "children-first")
+          for h in ("consecutive", "sparse", "hundreds")]
+    for part in harness.pmap(task_many_units, mu):
+        rep.merge(part)
     dates = ["2023-01-01"] if not thorough else ["2015-01-01", "2019-07-01", "2023-01-01", "2025-01-01"]
     api_tasks = []
     for d in dates:
@@ -292,7 +403,7 @@ def run(tier):
         "persons_all_row_orders": 4 if thorough else 3,
         "persons_identity_order_all_labelled_structures": 5 if thorough else 4,
         "roles": roles, "roles_up_to_3_persons": roles + "Z (ages 10, 3, 24, 25, 40, 70)", "roles_n5": n5_roles if thorough else None, "households": 2,
-        "couples_n": 6 if thorough else 5, "api_level_persons": 3, "api_dates": dates,
+        "couples_n": 6 if thorough else 5, "api_level_persons": 3, "many_units_tables": [list(x) for x in mu], "api_dates": dates,
     }
     rep.assumptions = [
         "valid structures as scoped in DESIGN.md 1.1 (fg-children have no partner, partners share a household, "
